@@ -16,4 +16,6 @@ if [ $st -ne 0 ]; then
   echo "setup.sh: selftest exited $st (see above)" >&2
   exit 1
 fi
+# self-check of the instrumenter: the repository's own tests on the instrumented copy
+bin/verif-check instrumented-tests || { echo "setup.sh: instrumented-tests failed" >&2; exit 1; }
 echo "setup ok"
